@@ -1274,7 +1274,14 @@ impl LSMIterator for TransactionRangeIterator<'_> {
 			self.direction = MergeDirection::Forward;
 			self.is_key_equal = false;
 
-			if !self.snapshot_iter.valid() || !self.ws_valid() {
+			// The source that is not current sits just before the current key, or is
+			// exhausted at the low end; either way everything it still has to
+			// yield going forward lies after the current key.
+			if !self.snapshot_iter.valid() {
+				if self.ws_valid() {
+					self.snapshot_iter.seek_first()?;
+				}
+			} else if !self.ws_valid() {
 				self.seek_ws_first();
 			} else if self.current_source == CurrentSource::Snapshot {
 				self.advance_ws();
@@ -1321,7 +1328,12 @@ impl LSMIterator for TransactionRangeIterator<'_> {
 			self.direction = MergeDirection::Backward;
 			self.is_key_equal = false;
 
-			if !self.snapshot_iter.valid() || !self.ws_valid() {
+			// Mirror image of the switch in `next()`.
+			if !self.snapshot_iter.valid() {
+				if self.ws_valid() {
+					self.snapshot_iter.seek_last()?;
+				}
+			} else if !self.ws_valid() {
 				self.seek_ws_last();
 			} else if self.current_source == CurrentSource::Snapshot {
 				self.advance_ws();
